@@ -1050,7 +1050,11 @@ class PDFDocument:
             if start in visited:
                 continue
             visited.add(start)
-            parser.seek(start)
+            try:
+                parser.seek(start)
+            except (OverflowError, ValueError):
+                # an offset that no file can have (negative, or beyond 2**63)
+                raise PDFNoValidXRef("Invalid xref offset: %r" % start)
             parser.reset()
             try:
                 (pos, token) = parser.nexttoken()
